@@ -34,7 +34,10 @@ func C09(run *report.Run) {
 			continue
 		}
 		if run.Tier == "quick" && (a["decl"] == "schema-alias" || a["level"] != "op") {
-			continue
+			// quick: besides the operation level, the inherited-next-to-an-overriding-sibling level on two kinds
+			if !(a["level"] == "sibling" && a["decl"] == "inline" && (a["kind"] == "int32" || a["kind"] == "string")) {
+				continue
+			}
 		}
 		in := map[string]string{"query": "query", "query-array": "query", "header": "header", "path": "path"}[a["loc"]]
 		pd := drv.ParamDecl{Name: "v", In: in, Required: a["req"] == "1", Array: a["loc"] == "query-array", Type: tf[0], Format: tf[1]}
@@ -72,7 +75,11 @@ func C09(run *report.Run) {
 		"array":  spec.Arr(spec.TF("integer", "int32")),
 		"string": spec.T("string"),
 		"raw":    spec.TF("string", "binary"),
+		// JSON-like media types that are not exactly application/json: client and server must agree on whether the body is typed
+		"mergepatch":  spec.Obj(spec.P("a", spec.T("string"))),
+		"jsoncharset": spec.Obj(spec.P("a", spec.T("string"))),
 	}
+	rawTypes := map[string]string{"raw": "application/octet-stream", "mergepatch": "application/merge-patch+json", "jsoncharset": "application/json; charset=utf-8"}
 	for qi, qt := range k2 {
 		for hi, ht := range k2 {
 			if run.Tier == "quick" && (qi+hi)%2 == 1 {
@@ -97,8 +104,8 @@ func C09(run *report.Run) {
 						s.Paths = []*spec.PathItem{pis}
 						body := ""
 						if sc := bodies[bn]; sc != nil {
-							if bn == "raw" {
-								op.Body = &spec.Body{ContentType: "application/octet-stream", Schema: sc}
+							if ct, isRaw := rawTypes[bn]; isRaw {
+								op.Body = &spec.Body{ContentType: ct, Schema: sc}
 								body = "raw"
 							} else {
 								op.Body = &spec.Body{Schema: sc, Required: true}
